@@ -91,8 +91,9 @@ def run_history(sel, nprog):
     acts = step_kinds(nprog)
     ol, cfgmod = fresh_import()
     random.seed(12345)
-    objs = [None, None]
-    ghost = [None, None]
+    # both options objects exist (fresh) at the start of every history; "create" replaces one
+    objs = [cfgmod.Configs(), cfgmod.Configs()]
+    ghost = [dict(DEFAULTS), dict(DEFAULTS)]
     for a in sel:
         act = acts[a]
         k = act[0]
@@ -148,7 +149,7 @@ def k_history(first, rest, nprog):
     n = len(step_kinds(nprog))
     sel = [first]
     for x in rest:
-        sel.append(rt.pick(x, n))
+        sel.append(rt.pick_bisect(x, n))
     with rt.NoTracing():
         return run_history(sel, nprog)
 
